@@ -401,3 +401,14 @@ impl std::fmt::Display for UnicodeExtensionList {
         Ok(())
     }
 }
+
+/// Verification hook (off unless built with `--cfg unic_locale_verif`): forwards to the
+/// crate-private parser entry so a harness can drive it with pre-split subtags.
+#[cfg(unic_locale_verif)]
+impl UnicodeExtensionList {
+    pub fn verif_try_from_iter<'a>(
+        iter: &mut Peekable<impl Iterator<Item = &'a [u8]>>,
+    ) -> Result<Self, ParserError> {
+        Self::try_from_iter(iter)
+    }
+}
